@@ -2,3 +2,9 @@
 import SV.Model.Basic
 import SV.Model.Wire
 import SV.Model.C11
+import SV.Model.Poly
+import SV.Model.PolyWire
+import SV.Model.PolyOps
+import SV.Lemmas.Mat
+import SV.Lemmas.Poly
+import SV.Props.C11
